@@ -57,7 +57,7 @@ class C11(PropBase):
                 "big": rng.choice([0.03, 0.1, 0.3]), "huge": rng.choice([0.0, 0.0, 0.0, 0.01]), "mega": rng.choice([0.0, 0.3]),
                 "max_out": rng.choice([1, 2, 4, 8]), "term_p": rng.choice([0.0, 0.0, 0.01, 0.03]),
                 "attempt_p": rng.choice([0.0, 0.05, 0.15]),
-                "pipeline": rng.choice([0] * 48 + [100, 101]),
+                "pipeline": rng.choice([0] * 48 + [100, 101]), "age": rng.choice([0] * 9 + [255, 300]),
                 "quiesce_every": rng.choice([15, 30, 60, 1000]), "starve": rng.choice(["c", "s"]),
                 "chunk": rng.choice(["mixed", "mixed", "byte", "whole"])}
 
@@ -68,6 +68,12 @@ class C11(PropBase):
                 "midpdu": False, "two": False, "resp_while_req": False, "joint": set(),
                 "heap": None, "arrivals": {"c": [], "s": []}, "last_was_mid": {"c": False, "s": False},
                 "ids": [], "entry_last": None, "delivered": {"c": 0, "s": 0}}
+        if init.get("age"):
+            try:
+                st.w.fast_preroll("c", "s", int(init["age"]))
+                st.hit("aged_pair")
+            except Diverged:
+                st.x["aged_failed"] = True
         # a deep pipeline: N requests sent back to back before anything is answered (pending-operation limits, id growth)
         for i in range(init.get("pipeline", 0)):
             self._call(st, {"op": "call", "who": "c", "m": "search_request" if i % 3 else "extended_request",
